@@ -11,12 +11,15 @@ Encoding summary (repeated in every evidence file, see report.ENCODING_ASSUMPTIO
 from __future__ import annotations
 
 import itertools
+import os
 
 import z3
 
 ObjS = z3.DeclareSort("Obj")
 
-_counter = itertools.count()
+# (PYVC_NAME_OFFSET shifts the numbering of fresh names: a proof must not depend on it - tools/allchecks.sh can be run with
+#  several offsets to find solver-unstable obligations)
+_counter = itertools.count(int(os.environ.get("PYVC_NAME_OFFSET", "0") or 0))
 
 
 def fresh_name(base: str) -> str:
